@@ -12,7 +12,7 @@ use serde_json::{json, Value};
 pub static ENGINE: Engine = Engine {
     prop: "C01",
     level: "model_checking",
-    rule: "S: state-space closure through the real evaluator (ParsedFormula::eval on one syntax node over Subtree operands): states = all Boolean functions over k named variables with non-adjacent ids (k=2: 16, k=3: 256), BFS from {true,false,variables} under Not and the 8 binary operators until a round adds nothing, then EVERY node kind (Not, 8 BinaryOps, Ite, Exists/Forall x every variable list <= 3 incl. repeats and an outside variable, 5 counting operators x constants 0..L+1 x every operand list <= L, 5 list-vs-list comparisons) on EVERY operand tuple; oracle = truth table. E: every AST with <= N nodes over the full alphabet (5 leaves, not, 8 binary, if, 6 quantifier heads, lfp/gfp, 5 comparisons x {0,1,2} and list-vs-list, lists <= 3), printed with minimal and with full parentheses, every alias spelling (all combinations for <= 2 nodes), parsed and evaluated by the real code, truth table by variable NAME vs the reference denotation; three deeper strata; a structured deep family (chains to depth 40 over six names, quantifier / if / fixed-point towers, counting lists of 5..9 operands); second observation point `rsbdd -t`. distinct = distinct (node kind, operands) + distinct formula texts",
+    rule: "S: state-space closure through the real evaluator (ParsedFormula::eval on one syntax node over Subtree operands): states = all Boolean functions over k named variables with non-adjacent ids (k=2: 16, k=3: 256), BFS from {true,false,variables} under Not and the 8 binary operators until a round adds nothing, then EVERY node kind (Not, 8 BinaryOps, Ite, Exists/Forall x every variable list <= 3 incl. repeats and an outside variable, 5 counting operators x constants 0..L+1 x every operand list <= L, 5 list-vs-list comparisons) on EVERY operand tuple; oracle = truth table. E: every AST with <= N nodes over the full alphabet (5 leaves, not, 8 binary, if, 6 quantifier heads, lfp/gfp, 5 comparisons x {0,1,2} and list-vs-list, lists <= 3), printed with minimal and with full parentheses, every alias spelling (all combinations for <= 2 nodes), parsed and evaluated by the real code, truth table by variable NAME vs the reference denotation; three deeper strata plus a scoping stratum (negation, one connective, if-then-else, four quantifier heads incl. one that lists the fixed-point binder, one fixed point; <= 6 (7) nodes, and its dual); a structured deep family (chains to depth 40 over six names, quantifier / if / fixed-point towers, counting lists of 5..9 operands); second observation point `rsbdd -t`. distinct = distinct (node kind, operands) + distinct formula texts",
     assumptions: &["reference semantics in harness/src/refl.rs (truth tables, fixed points by iteration with cycle detection)", "fixed points whose reference iteration does not converge are out of scope and counted", "k <= 3 variables in S, <= 6 names in E; AST size bounds as reported"],
     max_shards: 64,
     run,
@@ -37,6 +37,21 @@ pub fn binder_core() -> Alpha {
         ite: false,
         quants: vec![(true, vec![s("a")]), (false, vec![s("a")]), (true, vec![s("X")]), (false, vec![s("b"), s("a")])],
         fps: vec![(s("X"), false), (s("X"), true), (s("Y"), false), (s("Y"), true), (s("Z"), false)],
+        ..Default::default()
+    }
+}
+/// scoping: negation, one connective, if-then-else, four quantifier heads (one of them listing
+/// the fixed-point binder next to an ordinary variable) and one fixed point, so that 6- and
+/// 7-node formulas nest binders of the same name, binders around if-then-else, and negated
+/// quantifiers; `dual` swaps the connective, the quantifier kinds and the fixed-point kind
+pub fn scoping_core(dual: bool) -> Alpha {
+    Alpha {
+        leaves: vec![Ast::var("a"), Ast::var("b"), Ast::var("c"), Ast::var("X")],
+        not: true,
+        bins: vec![if dual { Bin::Or } else { Bin::And }],
+        ite: true,
+        quants: vec![(!dual, vec![s("a")]), (dual, vec![s("b")]), (!dual, vec![s("b")]), (!dual, vec![s("X"), s("a")])],
+        fps: vec![(s("X"), dual)],
         ..Default::default()
     }
 }
@@ -299,6 +314,8 @@ fn run(ctx: &mut Ctx) {
         stream_stratum(ctx, connective_core(), 5, 5, &mut idx, "asts_connective_core", 0, 0, 99);
         stream_stratum(ctx, binder_core(), 1, 5, &mut idx, "asts_binder_core", 0, 0, 5);
     }
+    stream_stratum(ctx, scoping_core(false), 1, if th { 7 } else { 6 }, &mut idx, "asts_scoping_core", 0, 0, 5);
+    stream_stratum(ctx, scoping_core(true), 1, if th { 7 } else { 6 }, &mut idx, "asts_scoping_core", 0, 0, 5);
     // names with non-ASCII letters, apostrophes and one name a prefix of another
     {
         fn ren(a: &Ast) -> Ast {
